@@ -284,3 +284,31 @@ impl Interpreter {
         self.rng = Rng::new(seed);
     }
 }
+
+#[cfg(feature = "verif-hooks")]
+impl Interpreter {
+    pub(crate) fn verif_snapshot(&self) -> String {
+        use crate::verif_hooks::{enc_value, hex};
+        let mut vars = self
+            .variables
+            .verif_entries()
+            .into_iter()
+            .map(|(k, v)| format!("{}={}", k, enc_value(&v)))
+            .collect::<Vec<_>>();
+        vars.sort();
+        format!(
+            "state={:?} ; input={} ; warn={} ; trace={} ; rng={} ; {} ; vars={} ; arrays={}",
+            self.state,
+            match &self.input {
+                None => "-".to_string(),
+                Some(s) => format!("h{}", hex(s.as_bytes())),
+            },
+            self.enable_warnings as u8,
+            self.enable_tracing as u8,
+            self.rng.verif_seed(),
+            self.program.verif_snapshot(),
+            vars.join(","),
+            self.arrays.verif_snapshot()
+        )
+    }
+}
